@@ -55,6 +55,22 @@ fn note_free() {
 	});
 }
 
+/// suspends the audio-thread allocation monitor on this thread for the guard's lifetime (used by the harness's own hooks)
+pub struct PauseAllocCount(bool);
+impl PauseAllocCount {
+	pub fn new() -> Self {
+		let was = IN_CALLBACK.try_with(|f| f.replace(false)).unwrap_or(false);
+		PauseAllocCount(was)
+	}
+}
+impl Drop for PauseAllocCount {
+	fn drop(&mut self) {
+		if self.0 {
+			let _ = IN_CALLBACK.try_with(|f| f.set(true));
+		}
+	}
+}
+
 pub fn in_callback() -> bool {
 	IN_CALLBACK.with(|f| f.get())
 }
